@@ -71,11 +71,15 @@ impl<L: Language> Analysis<L> for Leaves {
     type Data = std::collections::BTreeSet<String>;
     fn make(eg: &EGraph<L, Self>, enode: &L) -> Self::Data {
         let ch = enode.applied_id_occurrences();
+        // besides the leaf operators: height tags "#1" .. "#6" (Terms.tla: LeafDatum / NodeDatum) - a component in which an
+        // e-node that refers to its own class improves that class again and again, up to the cap
         if ch.is_empty() {
-            return [op_of(enode)].into_iter().collect();
+            return [op_of(enode), "#1".to_string()].into_iter().collect();
         }
         let mut s = std::collections::BTreeSet::new();
         for x in ch { s.extend(eg.analysis_data(x.id).iter().cloned()); }
+        let succ: Vec<String> = (1..6).filter(|k| s.contains(&format!("#{k}"))).map(|k| format!("#{}", k + 1)).collect();
+        s.extend(succ);
         s
     }
     fn merge(mut l: Self::Data, r: Self::Data) -> Self::Data { l.extend(r); l }
